@@ -302,7 +302,7 @@ def cases(tier, seed):
             out.append({'item': 'reduce', 'wa': wa})
     # python operands on both sides of every operator
     for op in BIN:
-        for wa in ([1, 3, 5] if tier == 'quick' else [1, 2, 3, 4, 5, 8, 16, 64, 65]):
+        for wa in ([1, 3, 5, 64] if tier == 'quick' else [1, 2, 3, 4, 5, 8, 16, 49, 53, 64, 65, 128]):
             if op == '*' and wa > 5:
                 continue
             ks = sorted({0, 1, (1 << wa) - 1, 1 << (wa - 1), (1 << wa) + 1})
